@@ -151,6 +151,7 @@ type node struct {
 	stickyInc int
 	touched   bool
 	lock      lockObs // last observed lock (white-box lock monitor)
+	commitRecs map[int64]*commitRecord // height -> last precommit list this node wrote to its commit WAL
 }
 
 type crashImage struct {
@@ -242,6 +243,7 @@ type config struct {
 	ReplayOld    bool // re-deliver arbitrarily old messages
 	SlowPm       int  // per-mille of deliveries that take seconds instead of milliseconds
 	DropPrecommitPm int // per-mille of precommit votes of rounds 0-2 that are lost (locks without commits)
+	LagHeights   int64 // fastsync profile: the laggard boots when the others have finalized this many heights
 }
 
 type sim struct {
@@ -596,7 +598,7 @@ func (s *sim) handleCrashes() bool {
 		s.orc.onCrash(n)
 		// peers notice
 		for _, o := range s.nodes {
-			if o != n && !o.byz && o.inc != nil && o.inc.alive() {
+			if o != n && o.inc != nil && o.inc.alive() {
 				s.notifyLeave(o.inc, n.peerID)
 			}
 		}
@@ -686,7 +688,7 @@ func (s *sim) restart(n *node, db *simDB, walDir string) {
 	s.boot(inc)
 	// peers see it join once it is up; deliver OnJoin right away (the overlay connects on start)
 	for _, o := range s.nodes {
-		if o != n && !o.byz && o.inc != nil && o.inc.alive() {
+		if o != n && o.inc != nil && o.inc.alive() {
 			s.notifyJoin(o.inc, n.peerID)
 		}
 	}
